@@ -74,9 +74,12 @@ F8 == Skeleton
   @@ Lnk(r(<<"l2">>), <<".">>) @@ Lnk(r(<<"a","l1">>), <<"..">>)
   @@ Lnk(r(<<"a","l2">>), <<"..","b","b","b","..","b">>) @@ Lnk(r(<<"a","a","b","a">>), <<"..","..","..","l2","b">>)
 
+\* (TLC re-evaluates a definition at every reference; only LET-bound names and operator arguments are
+\*  memoised.  Judge and MC therefore bind Catalogue / Forest(i) once and pass the value down.)
 Catalogue == <<F1, F2, F3, F4, F5, F6, F7, F8>>
-Forest(i) == Catalogue[i]
-NForests  == Len(Catalogue)
+NForests  == 8
+Forest(i) == CASE i = 1 -> F1 [] i = 2 -> F2 [] i = 3 -> F3 [] i = 4 -> F4
+               [] i = 5 -> F5 [] i = 6 -> F6 [] i = 7 -> F7 [] i = 8 -> F8
 
 \* working directories and directories used for descriptors (all exist as real directories in
 \* every forest; DirPaths are *opened by name*, possibly through links, see Base)
